@@ -151,7 +151,7 @@ class Prop(BaseProp):
             ctx.count("filter_checked")
             kept = ctx.call(ps.filter_by_spike_sync, sts, 0.0, **kw)
             for n, st in enumerate(kept):
-                for t in st.spikes.tolist():
+                for t in common.tl(st.spikes):
                     ctx.expect(any(near(t, tr[o], m) for o in range(N) if o != n), "coincidence-beyond-max_tau:filter",
                                "filter(threshold 0, max_tau=%r) keeps spike %r of train %d that has no partner closer than max_tau" % (m, t, n))
         # ---- None and 0 are identical
